@@ -55,92 +55,153 @@ impl Witnesses {
 // in-process: the sink fails for ever after k bytes
 // ------------------------------------------------------------------------------------------------
 
-fn check_sink_faults(ctx: &mut Ctx, w: &mut Witnesses) {
-    let lines = input_lines(if ctx.thorough() { 24 } else { 12 });
+/// the model's configuration for a query on these lines: (variant, per-line rows, fault-free output)
+fn model_table(q: &str, mode: &str, lines: &[Vec<u8>], agg: bool) -> Option<(&'static str, Vec<Option<Vec<u8>>>, Vec<u8>)> {
     let all: Vec<u8> = lines.concat();
-    let mut combos: Vec<(String, &str, &str, bool)> = vec![];
-    for (mname, mode) in MODES {
-        combos.push((format!("record/{}", mname), "* | json", mode, false));
-        combos.push((format!("aggregate/{}", mname), "* | json | count by k", mode, true));
+    let full = imp::run(q, &all, mode, 30);
+    if !full.compiled || full.panicked.is_some() || full.hung || full.error_lines != 0 {
+        return None;
+    }
+    let f = full.stdout;
+    if agg {
+        // one final write: the whole table (the model's aggFinal appends the newline)
+        if lines.is_empty() || f.last() != Some(&b'\n') {
+            return None;
+        }
+        let mut t: Vec<Option<Vec<u8>>> = vec![None; lines.len()];
+        t[0] = Some(f[..f.len() - 1].to_vec());
+        return Some(("agg", t, f));
+    }
+    let rows = split_rows(&f);
+    let (base, head) = match q.rsplit_once(" | limit ") {
+        Some((b, n)) => (b, n.trim().parse::<usize>().ok()),
+        None => (q, None),
+    };
+    let mut table = vec![];
+    let mut k = 0usize;
+    for l in lines {
+        let alone = imp::run(base, l, "json", 10);
+        let survives = !alone.stdout.is_empty() && head.map(|h| k < h).unwrap_or(true);
+        if survives {
+            table.push(Some(rows.get(k)?.clone()));
+            k += 1;
+        } else {
+            table.push(None);
+        }
+    }
+    if k != rows.len() {
+        return None;
+    }
+    Some((if mode == "json" { "json" } else { "rec" }, table, f))
+}
+
+fn wide_lines(n: usize, width: usize) -> Vec<Vec<u8>> {
+    (0..n)
+        .map(|i| {
+            let k = if i % 7 == 0 { "a" } else if i % 3 == 0 { "b" } else { "c" };
+            format!("{{\"k\":\"{}\",\"n\":{},\"pad\":\"{}\"}}\n", k, i, "é".repeat(width)).into_bytes()
+        })
+        .collect()
+}
+
+fn check_sink_faults(ctx: &mut Ctx, w: &mut Witnesses) {
+    // (name, query, aggregate?)
+    let mut queries: Vec<(&str, &str, bool)> = vec![("record", "* | json", false), ("aggregate", "* | json | count by k", true)];
+    let mut inputs: Vec<(String, Vec<Vec<u8>>)> = vec![("12".into(), input_lines(12))];
+    if ctx.thorough() {
+        queries.extend_from_slice(&[
+            ("record-filtered", "* | json | where n >= 3", false),
+            ("record-fields", "* | json | fields k", false),
+            ("record-limit", "* | json | limit 5", false),
+            ("record-none", "* | json | where n > 1000", false),
+            ("aggregate-total", "* | json | count", true),
+            ("aggregate-sum", "* | json | sum(n) by k", true),
+            ("aggregate-limit", "* | json | count by k | limit 2", true),
+        ]);
+        inputs.push(("1".into(), input_lines(1)));
+        inputs.push(("3".into(), input_lines(3)));
+        inputs.push(("40".into(), input_lines(40)));
+        inputs.push(("wide".into(), wide_lines(9, 150)));
     }
     let mut job = 0usize;
-    for (cname, q, mode, agg) in combos.iter() {
-        let full = imp::run(q, &all, mode, 30);
-        if !full.compiled || full.panicked.is_some() || full.hung {
-            ctx.case("sink-fault", "", "skip", json!({"why": "fault-free reference run failed", "combo": cname}));
-            continue;
-        }
-        let f = full.stdout.clone();
-        let rows = split_rows(&f);
-        // the model's configuration for this run
-        let (variant, table): (&str, Vec<Option<Vec<u8>>>) = if *agg {
-            // one final write: the whole table
-            let mut body = f.clone();
-            if body.last() == Some(&b'\n') {
-                body.pop();
-            }
-            let mut t: Vec<Option<Vec<u8>>> = vec![None; lines.len()];
-            t[0] = Some(body);
-            ("agg", t)
-        } else {
-            (if *mode == "json" { "json" } else { "rec" }, rows.iter().map(|r| Some(r.clone())).collect())
-        };
-        if !*agg && rows.len() != lines.len() {
-            ctx.case("sink-fault", "", "skip", json!({"why": "rows do not correspond to lines", "combo": cname}));
-            continue;
-        }
-        let step = if f.len() <= 2048 { 1 } else { 1 + f.len() / 1024 };
-        let mut ks: Vec<usize> = (0..=f.len()).step_by(step).collect();
-        // every line boundary in any case
-        for (i, b) in f.iter().enumerate() {
-            if *b == b'\n' {
-                ks.push(i);
-                ks.push(i + 1);
-            }
-        }
-        ks.push(f.len());
-        ks.sort();
-        ks.dedup();
-        for k in ks {
-            job += 1;
-            if job % ctx.nshards != ctx.shard {
-                continue;
-            }
-            let sink = Sink::failing_at(k);
-            let run = start(q, mode, BufReader::new(Cursor::new(all.clone())), sink.clone());
-            let key = format!("{}:k={}", cname, k);
-            let info = json!({"combo": cname, "query": q, "mode": mode, "fault_offset": k, "output_len": f.len()});
-            let o = match run.wait(Duration::from_secs(30)) {
-                None => {
-                    ctx.case("sink-fault", &key, "viol", json!({"class": "C17/no-termination-finite-input", "what": "finite input, failing sink: process() did not return within 30 s", "case": info}));
-                    continue;
+    for (iname, lines) in inputs.iter() {
+        let all: Vec<u8> = lines.concat();
+        for (qname, q, agg) in queries.iter() {
+            for (mname, mode) in MODES {
+                let cname = format!("{}/{}/{}", qname, mname, iname);
+                let (variant, table, f) = match model_table(q, mode, lines, *agg) {
+                    Some(t) => t,
+                    None => {
+                        ctx.case("sink-fault", "", "skip", json!({"why": "no per-line table for this combination", "combo": cname}));
+                        continue;
+                    }
+                };
+                let step = if f.len() <= 2048 { 1 } else { 1 + f.len() / 1024 };
+                let mut ks: Vec<usize> = (0..=f.len()).step_by(step).collect();
+                // every line boundary in any case
+                for (i, b) in f.iter().enumerate() {
+                    if *b == b'\n' {
+                        ks.push(i);
+                        ks.push(i + 1);
+                    }
                 }
-                Some(o) => o,
-            };
-            let got = sink.bytes();
-            // the model's prediction
-            let m = model_sched(ctx, variant, 1000, &table, &[], &[all.clone()], Some(k), None, ctx.seed ^ (k as u64 * 7919));
-            let model_panics = m.rend == "panicked" || m.reader == "panicked";
-            let f_ok = m.ok && m.written == hexb(&got) && m.errs == o.error_lines && model_panics == o.panicked.is_some() && m.reader == "done";
-            if !f_ok {
-                ctx.case("sink-fault", &key, "fdis", json!({"what": "model and implementation disagree on (bytes written, error lines, panic) for this fault offset",
-                    "impl": {"written_hex": hexb(&got[..got.len().min(200)]), "written_len": got.len(), "error_lines": o.error_lines, "panic": o.panicked},
-                    "model": m.raw.chars().take(300).collect::<String>(), "case": info}));
-                continue;
+                ks.push(f.len());
+                ks.push(f.len() + 7); // no fault at all
+                ks.sort();
+                ks.dedup();
+                for k in ks {
+                    job += 1;
+                    if job % ctx.nshards != ctx.shard {
+                        continue;
+                    }
+                    let sink = Sink::failing_at(k);
+                    // input either whole or released line by line through the gate (other interleavings)
+                    let gated = k % 3 == 1;
+                    let run = if gated {
+                        let gate = Gate::default();
+                        for l in lines {
+                            gate.release(l);
+                        }
+                        gate.eof();
+                        start(q, mode, gate.reader(), sink.clone())
+                    } else {
+                        start(q, mode, BufReader::new(Cursor::new(all.clone())), sink.clone())
+                    };
+                    let key = format!("{}:k={}", cname, k);
+                    let info = json!({"combo": cname, "query": q, "mode": mode, "fault_offset": k, "output_len": f.len(), "lines": lines.len()});
+                    let o = match run.wait(Duration::from_secs(30)) {
+                        None => {
+                            ctx.case("sink-fault", &key, "viol", json!({"class": "C17/no-termination-finite-input", "what": "finite input, failing sink: process() did not return within 30 s", "case": info}));
+                            continue;
+                        }
+                        Some(o) => o,
+                    };
+                    let got = sink.bytes();
+                    // the model's prediction
+                    let m = model_sched(ctx, variant, 1000, &table, &[], &[all.clone()], Some(k), None, ctx.seed ^ (k as u64 * 7919));
+                    let model_panics = m.rend == "panicked" || m.reader == "panicked";
+                    let f_ok = m.ok && m.written == hexb(&got) && m.errs == o.error_lines && model_panics == o.panicked.is_some() && m.reader == "done";
+                    if !f_ok {
+                        ctx.case("sink-fault", &key, "fdis", json!({"what": "model and implementation disagree on (bytes written, error lines, panic) for this fault offset",
+                            "impl": {"written_hex": hexb(&got[..got.len().min(200)]), "written_len": got.len(), "error_lines": o.error_lines, "panic": o.panicked},
+                            "model": m.raw.chars().take(300).collect::<String>(), "case": info}));
+                        continue;
+                    }
+                    // P-level
+                    if let Some(p) = &o.panicked {
+                        w.finding(ctx, "sink-fault", &key, "C17/json-writer-expect-panic",
+                            json!({"what": "a write error inside a row in `-o json` record output panics the renderer thread (printer.rs:249 to_writer(..).expect) instead of ending with an error line",
+                                   "panic": p, "stderr": o.stderr, "case": info, "input_hex": hexb(&all[..all.len().min(600)])}));
+                        continue;
+                    }
+                    if o.error_lines > 1 || got != f[..k.min(f.len())] {
+                        ctx.case("sink-fault", &key, "viol", json!({"class": "C17/unclean-fault-handling", "what": "more than one error line, or bytes written are not the first k bytes of the fault-free output",
+                            "error_lines": o.error_lines, "written_len": got.len(), "stderr": o.stderr, "case": info}));
+                        continue;
+                    }
+                    ctx.case("sink-fault", &key, "pass", json!({"case": info, "error_lines": o.error_lines, "failed_writes": sink.failed_writes()}));
+                }
             }
-            // P-level
-            if let Some(p) = &o.panicked {
-                w.finding(ctx, "sink-fault", &key, "C17/json-writer-expect-panic",
-                    json!({"what": "a write error inside a row in `-o json` record output panics the renderer thread (printer.rs:249 to_writer(..).expect) instead of ending with an error line",
-                           "panic": p, "stderr": o.stderr, "case": info, "input_hex": hexb(&all)}));
-                continue;
-            }
-            if o.error_lines > 1 || got != f[..k.min(f.len())] {
-                ctx.case("sink-fault", &key, "viol", json!({"class": "C17/unclean-fault-handling", "what": "more than one error line, or bytes written are not the first k bytes of the fault-free output",
-                    "error_lines": o.error_lines, "written_len": got.len(), "stderr": o.stderr, "case": info}));
-                continue;
-            }
-            ctx.case("sink-fault", &key, "pass", json!({"case": info, "error_lines": o.error_lines, "failed_writes": sink.failed_writes()}));
         }
     }
 }
